@@ -33,6 +33,14 @@ class VExc(V):
         return "VExc(%s)" % self.pycls.__name__
 
 
+class VPoison(V):
+    """value of a local after a loop havoc when the contract gives it no type: any use is outside
+    the encoded subset (the body must assign it before reading it)"""
+
+    def __init__(self, name):
+        self.name = name
+
+
 class _Return(Exception):
     def __init__(self, value):
         self.value = value
@@ -70,7 +78,8 @@ class Frame:
 
 
 class LoopSpec:
-    def __init__(self, invariants, modifies=(), decreases=None, index=None, var_types=None):
+    def __init__(self, invariants, modifies=(), decreases=None, index=None, var_types=None, entry=None):
+        self.entry = dict(entry or {})           # ghost names bound to expressions evaluated at loop entry
         self.invariants = list(invariants)
         self.modifies = list(modifies)    # extra heap locations: "obj.field" strings (python exprs)
         self.decreases = decreases
@@ -410,10 +419,13 @@ class Ex:
     def identical(self, a, b):
         if a is NONE or b is NONE:
             return self.is_none(b if a is NONE else a)
-        if isinstance(a, VOpt) and isinstance(b, (VObj, VBox)):
-            return z3.And(z3.Not(a.isnone), z3.BoolVal(a.val is b))
-        if isinstance(b, VOpt) and isinstance(a, (VObj, VBox)):
-            return z3.And(z3.Not(b.isnone), z3.BoolVal(b.val is a))
+        if isinstance(a, VOpt) and isinstance(b, VOpt):
+            return z3.Or(z3.And(a.isnone, b.isnone),
+                         z3.And(z3.Not(a.isnone), z3.Not(b.isnone), self.identical(a.val, b.val)))
+        if isinstance(a, VOpt):
+            return z3.And(z3.Not(a.isnone), self.identical(a.val, b))
+        if isinstance(b, VOpt):
+            return z3.And(z3.Not(b.isnone), self.identical(a, b.val))
         if isinstance(a, (VObj, VBox)) and isinstance(b, (VObj, VBox)):
             return z3.BoolVal(a is b)
         if isinstance(a, VBool) and isinstance(b, VBool):
@@ -435,11 +447,15 @@ class Ex:
         fr = self.frame()
         v = fr.lookup(name)
         if v is not None:
+            if isinstance(v, VPoison):
+                raise Unsupported("local %r is read after a loop havoc without a declared type" % name)
             return v
         return self.lookup_global(name, fr.func.module if fr.func else None)
 
     def lookup_global(self, name, mod):
         w = self.world
+        if self.spec_mode and name == "yields" and self.yields is not None:
+            return self.yields
         if self.spec_mode and name in w.spec_env:
             return w.spec_env[name]
         if mod is not None:
@@ -790,6 +806,12 @@ class Ex:
         tag = "%s#loop%d" % (fn, k)
         self.spec_mode += 1
         try:
+            for gname, gexpr in spec.entry.items():
+                self.frame().vars[gname] = self.eval_text(gexpr)
+        finally:
+            self.spec_mode -= 1
+        self.spec_mode += 1
+        try:
             for i, inv in enumerate(spec.invariants):
                 self.oblige("%s.inv%d.establish" % (tag, i), self.truth(self.eval_text(inv)), kind="inv-establish")
         finally:
@@ -835,6 +857,8 @@ class Ex:
             names |= _target_names(st.target)
         fr = self.frame()
         done = set()
+        if self.yields is not None and any(isinstance(n, (ast.Yield, ast.YieldFrom)) for s_ in st.body for n in ast.walk(s_)):
+            self.havoc_box(self.yields, "yields")
         for nm in sorted(names):
             v = fr.lookup(nm)
             if v is None:
@@ -853,6 +877,8 @@ class Ex:
                 own = fr.owner(nm)
                 if ty is not None and not isinstance(v, VBox):
                     nv = self.world.speclib.fresh_typed(self, ty, nm)
+                elif v is NONE or isinstance(v, VPoison) or (nm in spec.var_types and ty is None):
+                    nv = VPoison(nm)
                 else:
                     nv = self.havoc_value(v, nm)
                 own.vars[nm] = nv
@@ -962,6 +988,7 @@ class Ex:
         fr.vars["__it%d" % k] = box
         if spec.index:
             fr.vars[spec.index] = box.val[1]
+        fr.vars["__seq%d" % k] = box.val[0]
 
         def cond():
             if spec.index:
@@ -1036,6 +1063,14 @@ class Ex:
 
     def e_JoinedStr(self, e):
         raise Unsupported("f-string")
+
+    def e_Yield(self, e):
+        if self.yields is None:
+            raise Unsupported("yield outside the function under verification")
+        v = self.eval(e.value) if e.value is not None else NONE
+        ety = self.yields.val.ety
+        self.yields.val = VSeq("list", ety, z3.Concat(self.yields.val.t, z3.Unit(unwrap(ety, v))))
+        return NONE
 
     def e_IfExp(self, e):
         c = self.truth(self.eval(e.test))
@@ -1221,7 +1256,12 @@ class Ex:
     def getattr(self, obj, name, node=None):
         w = self.world
         if isinstance(obj, VOpt):
-            if self.branch(obj.isnone):
+            if self.spec_mode:
+                # specifications are total: e.attr on a possibly-None value denotes the attribute
+                # of the underlying value (unspecified when it is None)
+                if self.decided(obj.isnone) is True:
+                    raise Unsupported("specification dereferences None: .%s" % name)
+            elif self.branch(obj.isnone):
                 self.raise_(AttributeError, node=node)
             obj = obj.val
         if obj is NONE:
